@@ -226,6 +226,7 @@ def c10(ctx):
     edit_replay(ctx, "bytes", "C10")          # every byte < 0x80 and multi-byte UTF-8 as key and as value
     edit_replay(ctx, "bytepos", "C10")        # every byte < 0x80 at every position 0..17 of a padded string; pairs of escapes
     edit_replay(ctx, "nonfinite", "C10")      # SetFloat(NaN / +Inf / -Inf): marshalling must fail
+    edit_replay(ctx, "bigfloat", "C10")       # floats printed as long digit runs (1e16 .. 1e21) and both switches to exponent form
     # nesting deeper than any fixed-size bookkeeping, as single document and inside NDJSON, from root / per-root / inner iterators
     ctx.vh(["v-deepmarshal", "-property", "C10"] + ([] if quick(ctx) else ["-full"]), timeout=3000)
     if not quick(ctx):
